@@ -306,6 +306,18 @@ func c17EvalBytes(c *Ctx, cs Case) {
 	var es efivar.Efistring
 	p, _ = safely(func() { err = es.Unmarshal(bytes.NewBuffer(append([]byte{}, b...))) })
 	obs = outcomeOfString(p, string(es), err)
+	// the reader-based decoder scans for the terminator code unit: input that holds no 00 00 at an even offset (it ends
+	// inside a code unit, or simply ends) has no terminator, and decoding it is an error
+	unit := false
+	for i := 0; i+1 < len(b); i += 2 {
+		if b[i] == 0 && b[i+1] == 0 {
+			unit = true
+			break
+		}
+	}
+	if !unit && !strings.HasPrefix(obs, "err") {
+		c.Fail(Failure{Kind: "property", Matcher: "c17.efistring_noterm", What: "Efistring.Unmarshal: decoding input without the NUL terminator code unit is not an error", Case: cs, Go: obs, Spec: "err"})
+	}
 	c.Trace()
 	if m := c.Drv.Ask("efistring", hx(b)); m != obs {
 		c.Fail(Failure{Kind: "tie", What: "efistring on arbitrary bytes", Case: cs, Model: m, Go: obs})
